@@ -5,6 +5,7 @@ package main
 import (
 	"fmt"
 	"os"
+	"strconv"
 
 	"verifharness/vh"
 )
@@ -31,4 +32,16 @@ func main() {
 		vh.Flush()
 		os.Exit(2)
 	}
+}
+
+// asciiOnly keeps result lines free of characters that line-oriented readers treat as line
+// breaks (U+0085, U+2028, ...): everything outside printable ASCII is written as a Go escape.
+func asciiOnly(s string) string {
+	q := strconv.QuoteToASCII(s)
+	return q[1 : len(q)-1]
+}
+
+func emitRes(r vh.Result) {
+	r.Detail, r.Drift, r.Sig = asciiOnly(r.Detail), asciiOnly(r.Drift), asciiOnly(r.Sig)
+	vh.Emit(r)
 }
